@@ -394,10 +394,26 @@ impl Prop for C06 {
                 workers: 16,
                 build: Build::Normal,
             },
+            Leg {
+                name: "huge",
+                kind: LegKind::Random {
+                    cases: tier.pick(2, 16),
+                },
+                workers: 16,
+                build: Build::Normal,
+            },
         ]
     }
 
-    fn strategy(_leg: &str, tier: Tier) -> BoxedStrategy<Case> {
+    fn strategy(leg: &str, tier: Tier) -> BoxedStrategy<Case> {
+        if leg == "huge" {
+            return (gen::huge_dg(), gen::raw_sources())
+                .prop_map(|((g, family), (raw, class))| {
+                    let sources = gen::sources_from(&raw, class, g.order);
+                    Case { g, sources, family }
+                })
+                .boxed();
+        }
         (gen::digraph_labeled_big(tier.pick(16, 60)), gen::raw_sources())
             .prop_map(|((g, family), (raw, class))| {
                 let sources = gen::sources_from(&raw, class, g.order);
